@@ -16,6 +16,44 @@ func init() {
 	props["C10"] = propC10
 	extraOps["spec.den"] = func(a []sexp) string { return denStr(implDen(decLoc(a[0]), 0)) }
 	extraOps["spec.regden"] = func(a []sexp) string { return denStr(implRegDen(decReg(a[0]))) }
+	// the oracle definitions of the marker / in-bounds clauses, answered by the Lean restatement
+	// Gts/Spec/Marks.lean too (Loc.outerMarks, Loc.coordsWithin): the property theorems about
+	// markers and bounds (C02-C05, C10) are stated with the Lean side
+	extraOps["spec.marks"] = func(a []sexp) string {
+		m5, m3 := outerMarks(decLoc(a[0]))
+		return bit(m5) + " " + bit(m3)
+	}
+	extraOps["spec.cw"] = func(a []sexp) string { return bit(coordsWithin(decLoc(a[0]), decInt(a[1]))) }
+}
+
+func bit(b bool) string {
+	if b {
+		return "1"
+	}
+	return "0"
+}
+
+var specSeen = map[string]bool{}
+
+// specMarks / specCw send the oracle's own definitions to both sides (once per distinct
+// argument): a difference between harness/spec.go and Gts/Spec/Marks.lean is a correspondence
+// mismatch.
+func (r *Run) specMarks(ls ...gts.Location) {
+	for _, l := range ls {
+		k := "m|" + encLoc(l)
+		if !specSeen[k] {
+			specSeen[k] = true
+			r.op("spec.marks " + encLoc(l))
+		}
+	}
+}
+
+func (r *Run) specCw(l gts.Location, L int) {
+	k := fmt.Sprintf("c|%s|%d", encLoc(l), L)
+	if !specSeen[k] {
+		specSeen[k] = true
+		r.op(fmt.Sprintf("spec.cw %s %d", encLoc(l), L))
+	}
 }
 
 // implDen computes the denotation of a location through the real
@@ -111,6 +149,7 @@ func c02Loc(r *Run, l gts.Location, i, n int) {
 		r.eval(key, len(d) > 0 && n > 0)
 		r.checkDenLaw("shift: den(after) = map insMap den(before)", line,
 			fmt.Sprintf("k2.shift %s %d %d", ls, i, n), got, mapDen(d, insMap(i, n)))
+		r.specMarks(l, got)
 		lo0, hi0 := outerMarks(l)
 		lo1, hi1 := outerMarks(got)
 		if len(d) > 0 && nodup(d) && (lo0 != lo1 || hi0 != hi1) {
@@ -327,6 +366,8 @@ func c03Loc(r *Run, l gts.Location, L, i, k int) {
 	want := mapDen(d, delMap(i, k))
 	r.eval(fmt.Sprintf("d|%s|%d|%d", ls, i, k), len(d) > 0 && len(want) < len(d))
 	r.checkDenLaw("delete: den(after) = filterMap delMap den(before)", line, guard, got, want)
+	r.specCw(got, L-k)
+	r.specMarks(l, got)
 	if !coordsWithin(got, L-k) {
 		r.fail(Failure{Oracle: "delete: coordinates stay inside the new sequence", Op: line, Got: encLoc(got),
 			Want: fmt.Sprintf("all coordinates in [0,%d]", L-k), Guard: guard})
@@ -670,6 +711,8 @@ func c04Loc(r *Run, l gts.Location, L, n int) {
 			}
 		}
 	}
+	r.specCw(got, L)
+	r.specMarks(l, got)
 	if !coordsWithin(got, L) {
 		r.fail(Failure{Oracle: "rotate: coordinates in [0,L]", Op: line, Got: encLoc(got), Guard: guard})
 	}
@@ -773,6 +816,8 @@ func c05Loc(r *Run, l gts.Location, L int) {
 		}
 	}
 	// partial markers swap ends
+	r.specMarks(l, got)
+	r.specCw(l, L)
 	if len(d) > 0 && !hasAmbiguous(l) && nodup(d) {
 		lo0, hi0 := outerMarks(l)
 		lo1, hi1 := outerMarks(got)
@@ -1095,6 +1140,7 @@ func c10Loc(r *Run, l gts.Location, i, n int) {
 				Got: encLoc(back) + " den=" + denStr(den(back)), Want: denStr(d), Guard: guard})
 			continue
 		}
+		r.specMarks(l, back)
 		lo0, hi0 := outerMarks(l)
 		lo1, hi1 := outerMarks(back)
 		if len(d) > 0 && nodup(d) && (lo0 != lo1 || hi0 != hi1) {
